@@ -28,6 +28,14 @@ structure ValOK (t : Bytes) (c : Cell) : Prop where
   skip : ∀ (sk : ArgSkipper) (rest : Bytes) (ty : UInt8) (ib : Bool), Sep rest →
     ∃ dl, Pretty.skipValue sk (t ++ rest) ty ib = .ok (some ⟨some rest, 1, c.type, dl⟩)
 
+/-- the element type the array scanner records for an element with the cells `cells`
+    (`arrtype = arg->type; if(arrtype == '-') arrtype = has_delta ? arg[2].type : arg[1].type`) -/
+def elemTy (cells : List Cell) : Res UInt8 := do
+  let c0 ← deref cells
+  match c0 with
+  | .rep _ hdl => (do let c ← deref (cells.drop (if hdl ≠ 0 then 2 else 1)); pure c.type)
+  | c => pure c.type
+
 /-- the C11 model reads the text `t` as the cells `cs` of one argument.  The recursion bound only
     has to cover the nesting depth, which never exceeds the length of the text. -/
 structure Arg11 (t : Bytes) (cs : List Cell) : Prop where
@@ -37,6 +45,8 @@ structure Arg11 (t : Bytes) (cs : List Cell) : Prop where
   off : nextArgOffset (cs.length + 1) cs = .ok cs.length
   /-- `can_precede_range` is defined on the cells -/
   cpr : ∃ b, canPrecedeRange cs = .ok b
+  /-- so is the element type an enclosing array records -/
+  ety : ∃ ty, elemTy cs = .ok ty
   scan : ∀ (rest : Bytes) (fuel : Nat) (prev : List Cell) (ab : Nat) (fe : Bool), Sep rest → t.length ≤ fuel →
     C11.scanArgVal (fuel + 1) (t ++ rest) prev ab fe = .ok (t.length, cs)
   skip : ∀ (rest : Bytes) (fuel : Nat) (ty : UInt8) (llhs : Option Bytes) (fe ib : Bool), Sep rest → t.length ≤ fuel →
@@ -65,8 +75,10 @@ theorem canPrecedeRange_scalar (c : Cell) (more : List Cell) (h : c.isScalar = t
   cases c <;> simp_all [deref, ArgVal.Cell.isScalar, bind, Except.bind, pure, Except.pure]
 
 theorem ValOK.arg11 {t : Bytes} {c : Cell} (h : ValOK t c) : Arg11 t [c] := by
-  refine ⟨h.start, by simp, ?_, ⟨true, canPrecedeRange_scalar c [] h.scalar⟩, ?_, ?_⟩
+  refine ⟨h.start, by simp, ?_, ⟨true, canPrecedeRange_scalar c [] h.scalar⟩, ⟨c.type, ?_⟩, ?_, ?_⟩
   · simpa using nextArgOffset_scalar 1 c [] h.scalar
+  · have := h.scalar
+    cases c <;> simp_all [elemTy, deref, ArgVal.Cell.isScalar, bind, Except.bind, pure, Except.pure]
   · intro rest fuel prev ab fe hs _
     have hb : hd (t ++ rest) ≠ 91 := by rw [hd_append_of_ne_nil _ _ h.start.1]; exact h.noBracket
     unfold C11.scanArgVal
